@@ -66,6 +66,10 @@ Definition c08_agree (c : c08_case) : bool :=
   end.
 
 (* ---- C09 ---- *)
+(* position-coded data of the lagging-reader scenarios: byte at offset i *)
+Definition posdata (n : nat) : bytes :=
+  map (fun i => (Z.of_nat i * 7 + Z.of_nat i / 256 * 13) mod 256) (seq 0 n).
+
 Inductive c09_case :=
 | Cn (chunks : list nat) (data : bytes) (e : nat) (bufs : list nat) (obs : list cobs)
 | Wr (accepts : list (nat * bool)) (pkt : bytes) (writes : list bytes) (n : nat) (err : bool).
